@@ -15,6 +15,7 @@
 package ggql
 
 import (
+	"math"
 	"strconv"
 )
 
@@ -39,11 +40,10 @@ func (*floatScalar) CoerceIn(v interface{}) (interface{}, error) {
 	var err error
 	switch tv := v.(type) {
 	case nil:
-		// remains nil
 	case float64:
-		v = float32(tv)
+		v, err = toFloat32(tv)
 	case float32:
-		// ok as is
+		v, err = toFloat32(float64(tv))
 	case int32:
 		v = float32(tv)
 	case int64:
@@ -60,11 +60,10 @@ func (t *floatScalar) CoerceOut(v interface{}) (interface{}, error) {
 	var err error
 	switch tv := v.(type) {
 	case nil:
-		// remains nil
 	case float32:
-		// ok as is
+		v, err = toFloat32(float64(tv))
 	case float64:
-		v = float32(tv)
+		v, err = toFloat32(tv)
 	case int:
 		v = float32(tv)
 	case int8:
@@ -88,11 +87,22 @@ func (t *floatScalar) CoerceOut(v interface{}) (interface{}, error) {
 	case string:
 		var f float64
 		if f, err = strconv.ParseFloat(tv, 64); err == nil {
-			v = float32(f)
+			v, err = toFloat32(f)
+		} else {
+			v = nil
 		}
 	default:
 		v = nil
 		err = newCoerceErr(tv, "Float")
 	}
 	return v, err
+}
+
+// toFloat32 converts a finite float64 that is in the float32 range.
+func toFloat32(f float64) (interface{}, error) {
+	f32 := float32(f)
+	if math.IsNaN(f) || math.IsInf(float64(f32), 0) {
+		return nil, newCoerceErr(f, "Float")
+	}
+	return f32, nil
 }
